@@ -42,6 +42,17 @@ def build(rng, tier):
             hs = rng.choice([[], [], [('Range', 'bytes=0-')], [('Range', 'bytes=0-5,7-9')], [('Range', 'bytes=-5')]])
             m = rng.choice(['GET', 'GET', 'GET', 'HEAD', 'OPTIONS', 'POST'])
             cases.append(K.mk(tree, m, t, hs, entry=rng.choice(['proc', 'preq']), kind='traversal'))
+        # existing directories followed by doubled/tripled slashes and one '..' more than they are deep
+        # (a guard that counts depth and is fooled by empty segments)
+        for d in ('sub', 'sub/deep', 'dir.with.dots', 'emptydir', 'v1.2'):
+            depth = d.count('/') + 1
+            for slashes in ('//', '///', '/./', '//./'):
+                for extra in (1, 2):
+                    for tail in ('secret.txt', 'sib0/secret.html', 'index.html'):
+                        for dd in (d + slashes, d.replace('/', slashes) + '/', d + slashes.rstrip('/') + '/x/..' + '/'):
+                            t = '/' + dd + '../' * (depth + extra - 1) + '../' * 0 + tail
+                            cases.append(K.mk(tree, 'GET', t, rng.choice([[], [('Range', 'bytes=0-')]]), entry=rng.choice(['proc', 'preq']), kind='traversal'))
+                            cases.append(K.mk(tree, 'GET', '/' + dd + '../' * (depth + extra) + tail, entry=rng.choice(['proc', 'preq']), kind='traversal'))
         for t in ['/../secret.txt', '/sub/../../secret.txt', '/..', '/../', '/../index.html', '/../sib0/secret.html', '/..%2fsecret.txt', '/%2e%2e/secret.txt']:
             for entry in ('proc', 'preq'):
                 cases.append(K.mk(tree, 'GET', t, entry=entry, kind='corpus'))
